@@ -73,6 +73,50 @@ CLAIMS = {
         design="§7 C20",
         note=TB + "Fault = a Python exception raised by open/write/os.replace; crash/power-loss semantics (fsync, rename durability) are not modelled. black/ast.unparse run for real.",
     ),
+    "C09": dict(
+        technique="Lean 4 theorems on the per-file conform step (abstract layer with named laws + concrete decision table) tied by instrumented differential run; agreement predicate through an independent resolver and the real parsers",
+        text=(
+            "Kernel-checked: FsSync.conform_agrees (for every pre-state of a target — missing, definition absent, stale, "
+            "agreeing — the file afterwards reads back as the truth, given the named laws read_render/find_single/"
+            "find_replace/find_append/cmp_refl of the lower layers) and Conform.report_iff_written for the concrete decision "
+            "table of _conform_filename. The decision table is tied to the code by recording, inside every real "
+            "_conform_filename call, what it observed (exists/found/cmp/replaced/same-program) and what it did, and "
+            "comparing with Conform.decide. The laws are not proved for the real emitters/parsers: they are exactly what "
+            "the predicate checks per run (every target, located by an independent resolver and parsed by the real parser, "
+            "must agree with the generated interface). Three finding classes are recorded (stale FunctionDef targets are "
+            "not updated; method target without its class; function before target)."
+        ),
+        design="§7 C09",
+        note=TB + "The laws of the abstract layer are hypotheses, tested per generated project, not theorems about the Python emitters/parsers.",
+    ),
+    "C10": dict(
+        technique="Lean 4 theorems on the conform decision table (second and every later sync is a no-op; report true iff written) + instrumented differential run over sync histories",
+        text=(
+            "Kernel-checked: Conform.second_sync_noop and later_syncs_noop (induction over any number of further syncs: once "
+            "a file exists, the definition is found and re-rendering reproduces the same program, nothing is written and "
+            "'unchanged' is reported, whatever cmp_ast and RewriteAtQuery answer), report_iff_written, "
+            "decide_leaves_unchanged_file, the D14 witness decideOld_reports_unchanged_file, and the abstract "
+            "FsSync.conform_idem / conform_converges. Tied to the code by the recorded observations of every "
+            "_conform_filename call over histories of three syncs (same and alternating truth kinds, API and CLI); the "
+            "predicate compares byte snapshots, the returned and the printed report, and the truth file."
+        ),
+        design="§7 C10",
+        note=TB + "nextObs' premises (definition found again; same program after re-rendering = ast.unparse/black stability) are tested per run, not proved.",
+    ),
+    "C11": dict(
+        technique="Lean 4 frame theorems over the generic AST for the model of RewriteAtQuery + differential run; per-statement ast.dump comparison on generated target modules",
+        text=(
+            "Kernel-checked on the model the driver runs: visit_untouched, visitItems_frame, visitItems_length (every "
+            "statement the search does not touch comes back at its index, unchanged; nothing dropped, duplicated or "
+            "reordered), visit_replaced (only one node is replaced). The rewrite model is tied to the code by the C15 "
+            "differential run; here every generated target module (definition before/between/after other statements, "
+            "same-named methods in other classes, with and without a trailing newline) is synced for real and every "
+            "statement other than the named definition is compared by ast.dump, and the file must parse. The append branch "
+            "(existing text + addition) is checked by the predicate only."
+        ),
+        design="§7 C11",
+        note=TB + "ast.unparse and black are not modelled: 'file parses' and tree identity after re-emission are checked per run.",
+    ),
 }
 
 PENDING_REASON = "check not built yet in this round (work in progress; see DESIGN.md §10 build order) — not a claim that the technique cannot apply"
